@@ -6,6 +6,8 @@
 -/
 import PercevalModel.Model.C03
 import PercevalModel.Lemmas.C03
+import PercevalModel.Lemmas.C03Mass
+import PercevalModel.Props.C02
 import Mathlib.LinearAlgebra.Matrix.ConjTranspose
 
 open Matrix
@@ -298,7 +300,7 @@ theorem trim_error_bound_normalized (θ : ℚ) (members : List (ℚ × D))
   have hKpos : 0 < mass (mix kept) :=
     lt_of_le_of_ne (le_trans hk0 hk1) (Ne.symm hK)
   have hT0 : 0 ≤ mass (mix cut) := le_trans h2 h3
-  simp only [normalize, hK, ↓reduceIte, get_scale]
+  simp only [Dist.normalize, hK, ↓reduceIte, get_scale]
   rw [h1]
   set K := mass (mix kept)
   set T := mass (mix cut)
@@ -515,13 +517,193 @@ example :
 /-- `evolveTermθ_antitone`: `0 ≤ 1/1000000` -/
 example : (0 : ℚ) ≤ 1 / 1000000 := by norm_num
 
+/-! ## 6. unit total probability from unitarity
+
+C02's `dist_sums_to_one_GQ` (Parseval for permanents) discharges the unit-mass hypothesis of
+`mixture_convex` / `trim_error_bound`: for a unitary circuit matrix the members' distributions are
+probability distributions. -/
+
+/-- the output distribution of one group of indistinguishable photons of a unitary circuit has total
+probability one -/
+theorem probsFock_mass_one {m : ℕ} (U : Matrix (Fin m) (Fin m) GQ) (hU : IsUnitary U) (s : Fock)
+    (hs : s.length = m) : mass (probsFock U s) = 1 := by
+  rw [mass_probsFock]
+  exact PM.C02.dist_sums_to_one_GQ U hU s hs
+
+/-- … hence so has the distribution of a tagged input (any number of tag groups, any photon numbers) -/
+theorem probsTagged_mass_one {m : ℕ} (U : Matrix (Fin m) (Fin m) GQ) (hU : IsUnitary U)
+    (gs : List Fock) (hgs : ∀ s ∈ gs, s.length = m) : mass (probsTagged U gs) = 1 := by
+  rw [probs_tagged_mass]
+  apply List.prod_eq_one
+  intro x hx
+  obtain ⟨s, hs, rfl⟩ := List.mem_map.1 hx
+  exact probsFock_mass_one U hU s (hgs s hs)
+
+/-- `Simulator.probs(BasicState)` for a unitary circuit: the final normalisation changes no outcome —
+the reported probability of every outcome is that of the convolution of the tag groups, and the
+result has total probability one -/
+theorem probsBS_unitary {m : ℕ} (U : Matrix (Fin m) (Fin m) GQ) (hU : IsUnitary U) (st : AState)
+    (hst : st.length = m) :
+    (∀ t, get (probsBS U st) t = get (probsTagged U (separate st)) t) ∧ mass (probsBS U st) = 1 := by
+  have hlen : ∀ s ∈ separate st, s.length = m := by
+    intro s hs
+    unfold separate at hs
+    split at hs
+    · simp only [List.mem_singleton] at hs
+      simp [hs, occ, hst]
+    · obtain ⟨tg, _, rfl⟩ := List.mem_map.1 hs
+      simp [groupOf, hst]
+  have h1 := probsTagged_mass_one U hU (separate st) hlen
+  constructor
+  · intro t
+    rw [probsBS_eq_conv, normalize_of_mass_one _ h1]
+  · have := mass_congr (fun t => probsBS_eq_conv U st t)
+    rw [this, normalize_of_mass_one _ h1, h1]
+
+/-- **mixture_convex for a unitary circuit** (specification members): a mixture of tagged Fock states
+(a Fock state is the case of one group) through a unitary matrix — every outcome gets
+`∑ wᵢ · probsᵢ(outcome)`, the final `res.normalize()` is the identity and the result has total
+probability one, as soon as the weights sum to one.  No normalisation hypothesis on the members. -/
+theorem mixture_convex_unitary {m : ℕ} (U : Matrix (Fin m) (Fin m) GQ) (hU : IsUnitary U)
+    (members : List (ℚ × List Fock)) (hlen : ∀ p ∈ members, ∀ s ∈ p.2, s.length = m)
+    (hw : (members.map (·.1)).sum = 1) :
+    (∀ t, get (accumAll (members.map fun p => (p.1, probsTagged U p.2))) t
+        = (members.map fun p => p.1 * get (probsTagged U p.2) t).sum) ∧
+    normalize (accumAll (members.map fun p => (p.1, probsTagged U p.2)))
+      = accumAll (members.map fun p => (p.1, probsTagged U p.2)) ∧
+    mass (accumAll (members.map fun p => (p.1, probsTagged U p.2))) = 1 := by
+  have hm : ∀ q ∈ members.map (fun p => (p.1, probsTagged U p.2)), mass q.2 = 1 := by
+    intro q hq
+    obtain ⟨p, hp, rfl⟩ := List.mem_map.1 hq
+    exact probsTagged_mass_one U hU p.2 (hlen p hp)
+  have hw' : ((members.map fun p => (p.1, probsTagged U p.2)).map (·.1)).sum = 1 := by
+    rw [List.map_map]; exact hw
+  obtain ⟨h1, h2⟩ := mixture_convex (members.map fun p => (p.1, probsTagged U p.2))
+  refine ⟨fun t => ?_, h2 hm hw', ?_⟩
+  · rw [h1 t, List.map_map]; rfl
+  · rw [accumAll, mass_accumFrom, mass_nil, zero_add, ← hw', List.map_map, List.map_map]
+    congr 1
+    apply List.map_congr_left
+    intro p hp
+    simp only [Function.comp_apply]
+    rw [probsTagged_mass_one U hU p.2 (hlen p hp), mul_one]
+
+/-- the same for one-group members written with `probsFock` -/
+theorem mixture_convex_unitary_fock {m : ℕ} (U : Matrix (Fin m) (Fin m) GQ) (hU : IsUnitary U)
+    (members : List (ℚ × Fock)) (hlen : ∀ p ∈ members, p.2.length = m)
+    (hw : (members.map (·.1)).sum = 1) :
+    (∀ t, get (accumAll (members.map fun p => (p.1, probsFock U p.2))) t
+        = (members.map fun p => p.1 * get (probsFock U p.2) t).sum) ∧
+    normalize (accumAll (members.map fun p => (p.1, probsFock U p.2)))
+      = accumAll (members.map fun p => (p.1, probsFock U p.2)) := by
+  have hm : ∀ q ∈ members.map (fun p => (p.1, probsFock U p.2)), mass q.2 = 1 := by
+    intro q hq
+    obtain ⟨p, hp, rfl⟩ := List.mem_map.1 hq
+    exact probsFock_mass_one U hU p.2 (hlen p hp)
+  have hw' : ((members.map fun p => (p.1, probsFock U p.2)).map (·.1)).sum = 1 := by
+    rw [List.map_map]; exact hw
+  obtain ⟨h1, h2⟩ := mixture_convex (members.map fun p => (p.1, probsFock U p.2))
+  refine ⟨fun t => ?_, h2 hm hw'⟩
+  rw [h1 t, List.map_map]; rfl
+
+/-- **the code's fast path `_probs_svd_fast` on a unitary circuit, no trimming**: for any kept
+members that are Fock states (one term each, any tags), weights summing to one, the accumulated
+result gives every outcome `∑ wᵢ ·` (convolution of member `i`'s groups), and the final
+`res.normalize()` is the identity.  Unit mass of the members is derived, not assumed. -/
+theorem probs_svd_fast_unitary {m : ℕ} (U : Matrix (Fin m) (Fin m) GQ) (hU : IsUnitary U)
+    (kept : List (ℚ × Term)) (hlen : ∀ p ∈ kept, ∀ s ∈ p.2.groups, s.length = m)
+    (hw : (kept.map (·.1)).sum = 1) :
+    (∀ t, get (accumAll (kept.map fun p => (p.1, memberFast U 0 ⟨p.1, [p.2]⟩))) t
+        = (kept.map fun p => p.1 * get (probsTagged U (realGroups m p.2.groups)) t).sum) ∧
+    normalize (accumAll (kept.map fun p => (p.1, memberFast U 0 ⟨p.1, [p.2]⟩)))
+      = accumAll (kept.map fun p => (p.1, memberFast U 0 ⟨p.1, [p.2]⟩)) := by
+  have hm : ∀ q ∈ kept.map (fun p => (p.1, memberFast U 0 ⟨p.1, [p.2]⟩)), mass q.2 = 1 := by
+    intro q hq
+    obtain ⟨p, hp, rfl⟩ := List.mem_map.1 hq
+    show mass (memberFast U 0 ⟨p.1, [p.2]⟩) = 1
+    rw [mass_congr (fun t => memberFast_eq_conv U p.1 p.2 t)]
+    exact probsTagged_mass_one U hU _ (realGroups_length m _ (hlen p hp))
+  have hw' : ((kept.map fun p => (p.1, memberFast U 0 ⟨p.1, [p.2]⟩)).map (·.1)).sum = 1 := by
+    rw [List.map_map]; exact hw
+  obtain ⟨h1, h2⟩ := mixture_convex (kept.map fun p => (p.1, memberFast U 0 ⟨p.1, [p.2]⟩))
+  refine ⟨fun t => ?_, h2 hm hw'⟩
+  rw [h1 t, List.map_map]
+  congr 1
+  apply List.map_congr_left
+  intro p _
+  simp only [Function.comp_apply]
+  rw [memberFast_eq_conv]
+
+/-- `trim_error_bound` for a unitary circuit: the members' non-negativity and unit mass are derived -/
+theorem trim_error_bound_unitary {m : ℕ} (U : Matrix (Fin m) (Fin m) GQ) (hU : IsUnitary U) (θ : ℚ)
+    (members : List (ℚ × List Fock)) (hlen : ∀ p ∈ members, ∀ s ∈ p.2, s.length = m)
+    (hw : ∀ p ∈ members, 0 ≤ p.1) (t : Fock) :
+    let ds := members.map fun p => (p.1, probsTagged U p.2)
+    let kept := ds.filter fun p => decide (θ < p.1)
+    let cut := ds.filter fun p => !decide (θ < p.1)
+    get (mix ds) t = get (mix kept) t + get (mix cut) t ∧
+    0 ≤ get (mix cut) t ∧ get (mix cut) t ≤ mass (mix cut) ∧
+    mass (mix cut) ≤ θ * cut.length := by
+  apply trim_error_bound
+  · intro q hq
+    obtain ⟨p, hp, rfl⟩ := List.mem_map.1 hq
+    exact hw p hp
+  · intro q hq
+    obtain ⟨p, hp, rfl⟩ := List.mem_map.1 hq
+    exact ⟨probsTagged_nonneg U p.2, probsTagged_mass_one U hU p.2 (hlen p hp)⟩
+
+/-! non-vacuity of section 6: a non-symmetric unitary (`PM.C02.exU`, entries 3/5 and 4i/5), bunched and
+tagged inputs, weights 1/4 and 3/4 -/
+
+theorem exU_isUnitary : IsUnitary PM.C02.exU := by unfold IsUnitary; decide +kernel
+
+example : mass (probsFock PM.C02.exU [1, 1]) = 1 := probsFock_mass_one _ exU_isUnitary _ rfl
+
+example : mass (probsTagged PM.C02.exU [[1, 0], [0, 2]]) = 1 :=
+  probsTagged_mass_one _ exU_isUnitary _ (by simp)
+
+example : mass (probsBS PM.C02.exU [[2, 1], [2]]) = 1 := (probsBS_unitary _ exU_isUnitary _ rfl).2
+
+/-- `mixture_convex_unitary`, `trim_error_bound_unitary`: a Fock member and a two-tag member -/
+example :
+    let ms : List (ℚ × List Fock) := [(1 / 4, [[1, 1]]), (3 / 4, [[1, 0], [0, 2]])]
+    (∀ p ∈ ms, ∀ s ∈ p.2, s.length = 2) ∧ (ms.map (·.1)).sum = 1 ∧ (∀ p ∈ ms, 0 ≤ p.1) ∧
+    mass (accumAll (ms.map fun p => (p.1, probsTagged PM.C02.exU p.2))) = 1 := by
+  intro ms
+  have h1 : ∀ p ∈ ms, ∀ s ∈ p.2, s.length = 2 := by
+    intro p hp s hs
+    simp only [ms, List.mem_cons, List.not_mem_nil, or_false] at hp
+    rcases hp with rfl | rfl
+    · simp only [List.mem_cons, List.not_mem_nil, or_false] at hs
+      subst hs; rfl
+    · simp only [List.mem_cons, List.not_mem_nil, or_false] at hs
+      rcases hs with rfl | rfl <;> rfl
+  have h2 : (ms.map (·.1)).sum = 1 := by norm_num [ms]
+  refine ⟨h1, h2, ?_, (mixture_convex_unitary _ exU_isUnitary ms h1 h2).2.2⟩
+  intro p hp
+  simp only [ms, List.mem_cons, List.not_mem_nil, or_false] at hp
+  rcases hp with rfl | rfl <;> norm_num
+
+/-- `probs_svd_fast_unitary`: one member with an empty tag group (vacuum of a tag), one with two tags -/
+example :
+    let kept : List (ℚ × Term) := [(1 / 4, ⟨1, [[1, 0], [0, 0]]⟩), (3 / 4, ⟨1, [[1, 0], [0, 1]]⟩)]
+    (∀ p ∈ kept, ∀ s ∈ p.2.groups, s.length = 2) ∧ (kept.map (·.1)).sum = 1 := by
+  intro kept
+  refine ⟨?_, by norm_num [kept]⟩
+  intro p hp s hs
+  simp only [kept, List.mem_cons, List.not_mem_nil, or_false] at hp
+  rcases hp with rfl | rfl <;>
+  · simp only [List.mem_cons, List.not_mem_nil, or_false] at hs
+    rcases hs with rfl | rfl <;> rfl
+
 /-!
 Not proved here (validated by the correspondence on every run):
 * `probsSV U [⟨1, gs⟩] ≈ probsTagged U gs` — the generic path on a Fock member equals the fast path
   (|∏ amplitudes|² summed over annotated outputs = convolution of the groups' probabilities);
 * `probabilityBS` (sum over `partition`s) `= get (probsTagged …)`;
-* total probability 1 for a unitary matrix (C02's `dist_sums_to_one`) — `mixture_convex` takes the
-  members' unit mass as a hypothesis;
+* total probability 1 of a *superposed* member (`probsSV` of several terms) for a unitary matrix —
+  see the end of section 6; for Fock-state and tagged members it is proved (`probsFock_mass_one`,
+  `probsTagged_mass_one`, `mixture_convex_unitary`, `probs_svd_fast_unitary`);
 * a bound on the OUTPUT probabilities for the internal product/amplitude thresholds of
   `list_tensor_product` / `_merge_sv` at a non-zero precision (`innerTP θ`, `memberGenericθ`): what
   one recombination leaves out is characterised exactly (`merge_threshold_exact`,
